@@ -69,7 +69,7 @@ m("C13","revert-ring-close","xy/convex_hull.go","	if !internal.Equal(polyPts, 0,
 m("C13","revert-pad-slot","xy/convex_hull.go","			pad[i] = pts[i%calc.stride]","			pad[i] = pts[0]","whole-coordinates-carried/(*xy.convexHullCalculator).padArray3")
 m("C13","presort-swap-xy-only","xy/convex_hull.go","			for k := range calc.stride {\n				pts[k], pts[i+k] = pts[i+k], pts[k]\n			}","			for k := range 2 {\n				pts[k], pts[i+k] = pts[i+k], pts[k]\n			}","whole-coordinates-carried/(*xy.convexHullCalculator).preSort")
 # ---- C14
-m("C14","hole-shell-polarity","xy/area_centroid.go","func (calc *AreaCentroidCalculator) addHole(pts []float64) {\n	stride := calc.stride\n\n	isPositiveArea := IsRingCounterClockwise(calc.layout, pts)","func (calc *AreaCentroidCalculator) addHole(pts []float64) {\n	stride := calc.stride\n\n	isPositiveArea := !IsRingCounterClockwise(calc.layout, pts)","shell-hole-polarity/xy.(*AreaCentroidCalculator).addHole")
+m("C14","hole-shell-polarity","xy/area_centroid.go","func (calc *AreaCentroidCalculator) addHole(pts []float64) {\n	stride := calc.stride\n\n	isPositiveArea := IsRingCounterClockwise(calc.layout, pts)","func (calc *AreaCentroidCalculator) addHole(pts []float64) {\n	stride := calc.stride\n\n	isPositiveArea := !IsRingCounterClockwise(calc.layout, pts)","shell-hole-polarity/")
 m("C14","shell-y-at-2","xy/area_centroid.go","		p1[1] = pts[i+1]\n		p2[0] = pts[i+stride]\n		p2[1] = pts[i+stride+1]\n		calc.addTriangle(calc.basePt, p1, p2, isPositiveArea)\n	}\n	calc.addLinearSegments(pts)\n}\n\nfunc (calc *AreaCentroidCalculator) addHole","		p1[1] = pts[i+2]\n		p2[0] = pts[i+stride]\n		p2[1] = pts[i+stride+1]\n		calc.addTriangle(calc.basePt, p1, p2, isPositiveArea)\n	}\n	calc.addLinearSegments(pts)\n}\n\nfunc (calc *AreaCentroidCalculator) addHole","stride-discipline/(*xy.AreaCentroidCalculator).addShell")
 m("C14","signedarea-last-dropped","xy/cga.go","	lenMinusOnePoint := len(ring) - stride\n	for i := stride; i < lenMinusOnePoint; i += stride {","	lenMinusOnePoint := len(ring) - 2*stride\n	for i := stride; i < lenMinusOnePoint; i += stride {","segment-coverage/xy.SignedArea")
 # ---- C15
